@@ -20,6 +20,7 @@ Inductive c19case :=
 | ScalarCmp (v1 : sv) (u1 : Z) (v2 : sv) (u2 : Z) (eq ne : bool) (lt le gt ge : res bool)
 | ScalarInit (v : sv) (out : res unit)
 | XYCtor (x y : arrd) (out : res unit)
+| XYFactory (x y : arrd) (out : res unit)        (* XYData.from_arrays_1d(x, y) with no dtype: the same acceptance, its own validation order *)
 | XYEq (same_x same_y same_xu same_yu : bool) (eq : bool).
 
 Definition rb_ok (got want : res bool) (alt : option exn) : bool :=
@@ -56,6 +57,12 @@ Definition c19_spec_ok (c : c19case) : bool :=
   | ScalarInit v out =>
       match scalar_init v, out with Ok _, Ok _ => true | Raise e', Raise e => exn_isa e e' | _, _ => false end
   | XYCtor x y out =>
+      match xy_init x y, out with
+      | Ok _, Ok _ => true
+      | Raise _, Raise e => exn_isa e TypeError || exn_isa e ValueError
+      | _, _ => false
+      end
+  | XYFactory x y out =>
       match xy_init x y, out with
       | Ok _, Ok _ => true
       | Raise _, Raise e => exn_isa e TypeError || exn_isa e ValueError
